@@ -19,6 +19,10 @@ class Panics(NoEval):
     """the fragment would panic on this input (index out of bounds, unwrap on None): callers that care may treat it as an observed outcome"""
 
 
+class FmtArgs(str):
+    """the text of an evaluated format_args!"""
+
+
 class _Break(Exception):
     pass
 
@@ -70,6 +74,28 @@ class Interp:
         self.facts = facts        # when given, calls of functions of the analysed crate are interpreted from their HIR (if `inline(key)` allows it)
         self.inline = inline
         self.depth = 0
+
+    def _format_args(self, b, env):
+        """a `format_args!` expansion evaluates to its text (arguments printed with str(); only plain `{}` placeholders)"""
+        for tmpl, args, node in hir.format_calls(b):
+            if node is b:
+                if tmpl is None:
+                    raise NoEval('format template')
+                vals = [self.ev(a, env) for a in args]
+                parts = tmpl.split('{}')
+                if len(parts) != len(vals) + 1:
+                    raise NoEval('format placeholders')
+                out = parts[0]
+                for v, rest in zip(vals, parts[1:]):
+                    if isinstance(v, bool):
+                        v = 'true' if v else 'false'
+                    elif isinstance(v, float):
+                        raise NoEval('float formatting')
+                    elif not isinstance(v, (str, int)) and not hasattr(v, 'fmt_display'):
+                        raise NoEval('formatting of %r' % (v,))
+                    out += (v.fmt_display() if hasattr(v, 'fmt_display') else str(v)) + rest
+                return FmtArgs(out)
+        return None
 
     def local_call(self, key, argvals):
         f = self.facts['fns'][key]
@@ -155,6 +181,10 @@ class Interp:
         while e is not None and (e.get('k') == 'AddrOf' or (e.get('k') == 'Unary' and e['op'] == 'Deref') or (e.get('k') == 'Block' and not e['stmts'] and e['expr'] is not None)):
             e = e['e'] if e.get('k') != 'Block' else e['expr']
         k = e.get('k')
+        if k == 'Block' and e['stmts'] and e['stmts'][0].get('k') == 'Let':
+            ft = self._format_args(e, env)
+            if ft is not None:
+                return ft
         rb_ = hir.range_bounds(e) if k in ('Struct', 'Call') else None
         if rb_ is not None and rb_[0] is not None and rb_[1] is not None:
             lo_, hi_ = self.ev(rb_[0], env), self.ev(rb_[1], env)
@@ -170,6 +200,9 @@ class Interp:
             s = hir.lit_str(e)
             if s is not None:
                 return s
+            mc_ = re.match(r"^Char\('(.*)'\)$", e.get('v') or '', re.S)
+            if mc_:
+                return hir._unescape(mc_.group(1)) if hasattr(hir, '_unescape') else mc_.group(1)
             m_ = _FLOAT.match(e.get('v') or '')
             if m_:
                 return float(m_.group(1))
@@ -321,6 +354,23 @@ class Interp:
             a2 = hir.ctor_call(e, nm_)
             if a2 is not None:
                 return (nm_, self.ev(a2[0], env))
+        if c.endswith(('fmt::format', 'hint::must_use')) and len(e['args']) == 1:
+            v_ = self.ev(e['args'][0], env)
+            if isinstance(v_, str):
+                return str(v_)
+            raise NoEval('format of %r' % (v_,))
+        if c.endswith(('Arguments::<\'a>::from_str', 'Arguments::<\'a>::new_const', 'Arguments::from_str', 'Arguments::new_const')) and e['args']:
+            v_ = self.ev(e['args'][0], env)
+            if isinstance(v_, list) and len(v_) == 1:
+                v_ = v_[0]
+            if isinstance(v_, str):
+                return FmtArgs(v_)
+        if (e.get('ty') or '').endswith('string::String') and len(e['args']) == 1 and c.rsplit('::', 1)[-1] in ('from', 'into', 'to_string', 'to_owned'):
+            v_ = self.ev(e['args'][0], env)
+            if isinstance(v_, str):
+                return str(v_)
+        if (e.get('ty') or '').endswith('string::String') and not e['args'] and c.rsplit('::', 1)[-1] in ('new', 'default'):
+            return ''
         if c.endswith('vec::from_elem') and len(e['args']) == 2:
             return [self.ev(e['args'][0], env)] * self.ev(e['args'][1], env)
         fnode = hir.strip(e['fun'])
@@ -489,6 +539,27 @@ class Interp:
                 return some(L[i]) if isinstance(i, int) and 0 <= i < len(L) else NONE
             if nm == 'sum':
                 return sum(L)
+            if nm in ('join', 'concat') and all(isinstance(x, str) for x in L):
+                return (A() if args else '').join(L)
+            if nm == 'try_for_each':
+                f = A()
+                for x in L:
+                    r = f(x)
+                    if isinstance(r, tuple) and r and r[0] == 'Err':
+                        return r
+                    if r == NONE:
+                        return NONE
+                return ('Ok', ())
+            if nm in ('fold', 'try_fold') and len(args) == 2:
+                acc, f = A(0), A(1)
+                for x in L:
+                    acc = f(acc, x)
+                    if nm == 'try_fold':
+                        if isinstance(acc, tuple) and acc and acc[0] == 'Err':
+                            return acc
+                        if isinstance(acc, tuple) and acc and acc[0] == 'Ok':
+                            acc = acc[1]
+                return ('Ok', acc) if nm == 'try_fold' else acc
             if nm == 'windows':
                 w = A()
                 return [L[i:i + w] for i in range(0, len(L) - w + 1)]
@@ -545,8 +616,20 @@ class Interp:
                     recv[i], recv[j] = recv[j], recv[i]
                     return None
         if isinstance(recv, str):
-            if nm in ('to_string', 'to_owned', 'as_str', 'clone'):
-                return recv
+            if nm in ('push_str', 'push') and len(args) == 1:
+                a_ = A()
+                if not isinstance(a_, str):
+                    raise NoEval('push of %r' % (a_,))
+                self.place_set(e['recv'], str(recv) + a_, env)
+                return None
+            if nm in ('to_string', 'to_owned', 'as_str', 'clone', 'as_ref', 'into'):
+                return str(recv)
+            if nm == 'is_empty':
+                return not recv
+            if nm == 'starts_with' and len(args) == 1:
+                return recv.startswith(A())
+            if nm == 'ends_with' and len(args) == 1:
+                return recv.endswith(A())
             if nm == 'len':
                 return len(recv)
             if nm == 'chars':
